@@ -490,6 +490,35 @@ pub fn gen_msg_program(id: &str, tape: Vec<u32>, opts: &GenOpts) -> Program {
             }
         }
     }
+    // a third of the overriding contracts are bare: one overridden kind, no interfaces, and the
+    // own handlers of exec / sudo dropped half of the time each -- the generated entry point of
+    // such a kind has nothing of its own to dispatch to
+    if !overrides.is_empty() && t.chance(50) {
+        overrides.truncate(1);
+        interfaces.clear();
+        // most often it is `migrate` that is overridden alone (added when the contract has none)
+        if t.chance(60) {
+            if !methods.iter().any(|m| m.kind() == Some(Kind::Migrate)) {
+                let name = reg.fresh(t, 0, Kind::Migrate, false);
+                methods.push(Method {
+                    name,
+                    role: Role::Handler(Kind::Migrate),
+                    args: vec![],
+                    err: if custom_err { ErrTy::Custom } else { ErrTy::Std },
+                    resp: RespTy::EchoA,
+                    resp_explicit: false,
+                    variant_attrs: vec![],
+                    reply: None,
+                });
+            }
+            overrides = vec![Kind::Migrate];
+        }
+        for k in [Kind::Sudo, Kind::Exec] {
+            if !overrides.contains(&k) && t.chance(if k == Kind::Sudo { 70 } else { 40 }) {
+                methods.retain(|m| m.kind() != Some(k));
+            }
+        }
+    }
     let mut kinds_present = vec![Kind::Instantiate, Kind::Exec, Kind::Query, Kind::Sudo];
     if methods.iter().any(|m| m.kind() == Some(Kind::Migrate)) {
         kinds_present.push(Kind::Migrate);
@@ -618,7 +647,9 @@ pub fn gen_reply_program(id: &str, tape: Vec<u32>, opts: &GenOpts, any_order: bo
         let data = DataMode::ALL[t.weighted(&[25, 12, 12, 15, 12, 12, 12])];
         // a mandatory typed data parameter may itself be an Option (that is just its JSON type:
         // `null` decodes to None, absent data is still an error)
-        let data_ty = match t.pick(6) {
+        let data_ty = match t.pick(7) {
+            // a byte string is a JSON type like any other: base64 text inside the envelope
+            6 => Ty::Binary,
             0 => Ty::Rec,
             1 => Ty::U32,
             2 => Ty::Str,
